@@ -65,7 +65,13 @@ func runC13(c *Ctx) {
 			case ir.IsNilConst(lv):
 				r.OK("C13.1", "return:nil", c.pos(ret), "returns nil")
 			case d == "global:SkipDir":
-				r.OK("C13.1", "return:SkipDir", c.pos(ret), "returns filepath.SkipDir")
+				isDir := false
+				for _, g := range c.guardsOf(cb, ret) {
+					if strings.HasPrefix(g, "IsDir(param:info)") {
+						isDir = true
+					}
+				}
+				r.Check("C13.1", "return:SkipDir", isDir, c.pos(ret), "filepath.SkipDir is returned only for an entry that is a directory (for any other entry Walk would skip the REST of the containing directory, silently dropping the Spec files that sort after it)")
 			case scanFnCall(lv):
 				nScanFn++
 				r.OK("C13.1", "return:scanFn", c.pos(ret), "returns the scan function's verdict")
